@@ -660,7 +660,7 @@ pub fn rows_c08(args: &[String]) -> i32 {
     let mut rng = Rng::new(seed ^ 0xC08);
     let mut lits: Vec<String> = vec![];
     // halfway cases between adjacent floats (both widths), and one last-place unit either side
-    let nsamp = if thorough { 1500 } else { 40 };
+    let nsamp = if thorough { 400 } else { 40 };
     let mut f32s: Vec<f32> = vec![f32::MAX, f32::MIN_POSITIVE, f32::from_bits(1), f32::from_bits(0x007fffff), 1.0, 16777216.0, 16777218.0, 0.1, 3.0e38, 1e-45, 8388608.0];
     let mut f64s: Vec<f64> = vec![f64::MAX, f64::MIN_POSITIVE, f64::from_bits(1), f64::from_bits(0x000fffffffffffff), 1.0, 9007199254740992.0, 0.1, 1.7e308, 5e-324, 4503599627370496.0];
     for _ in 0..nsamp {
@@ -718,7 +718,7 @@ pub fn rows_c08(args: &[String]) -> i32 {
               "1.5", "2.5", "1e0", "1E+0", "1e-0", "+1.5e+3", "-1.5E-3", "5e-1", ".5", "5."] {
         lits.push(z.to_string());
     }
-    let nrand = if thorough { 400_000 } else { 600 };
+    let nrand = if thorough { 200_000 } else { 600 };
     for _ in 0..nrand {
         let nd = 1 + rng.below(30) as usize;
         let d: String = (0..nd).map(|_| (b'0' + rng.below(10) as u8) as char).collect();
